@@ -299,7 +299,7 @@ def main(tier, seed):
     try:
         translate()
         run.obligation("translate:StateManager.compute_logw_and_logz", True)
-    except TranslateError as e:
+    except Exception as e:  # fail closed: anything the translator cannot digest
         run.obligation("translate:StateManager.compute_logw_and_logz", False, str(e))
     run.prove("Props/C04.v", link_rels=["Link/MIS.v"], allowed_axioms=STDLIB_AXIOMS_REALS)
     try:
